@@ -42,7 +42,21 @@ def m_second_ampm(payload):
     return PC.model_strict_clash(PC.opts_from_json(inp.get("opts")), inp["s"])
 
 
-MATCHERS = {"m_second_ampm": m_second_ampm}
+def m_tzlocal_range(payload):
+    """zone resolution fails ONLY by OverflowError where the table says local zone, AND the guard of
+    C15_tz_cascade_lz fails: the text resolves to tz.tzlocal under the case's process time zone and the
+    extracted Local.tzlocal_raises is true at the wall time (daylight-saving zone, standard time in force,
+    wall time within |dst_saved| of datetime.min / datetime.max)"""
+    inp = payload.get("input")
+    if not (payload.get("kind", "").startswith("zone resolution") and isinstance(inp, dict) and inp.get("tz")):
+        return False
+    impl, spec = payload.get("impl"), payload.get("spec")
+    if not (impl and list(impl) == ["OverflowError"] and spec and spec[0] == "ok"):
+        return False
+    return PC.tzlocal_range_hit(PC.opts_from_json(inp.get("opts")), inp["s"], inp["tz"])
+
+
+MATCHERS = {"m_second_ampm": m_second_ampm, "m_tzlocal_range": m_tzlocal_range}
 
 
 # ---------------------------------------------------------------------------- stream 1: default fill
@@ -162,9 +176,11 @@ def gen_zone_text(r):
 def gen_zone_case(r):
     o = PC.default_opts()
     o["default"] = r.choice([(2003, 1, 15, 0, 0, 0, 0), (2003, 7, 15, 0, 0, 0, 0), (2003, 10, 26, 0, 0, 0, 0),
-                             (2003, 3, 30, 0, 0, 0, 0)])
+                             (2003, 3, 30, 0, 0, 0, 0), (2003, 1, 15, 0, 0, 0, 0), (2003, 7, 15, 0, 0, 0, 0),
+                             (2003, 10, 26, 0, 0, 0, 0), (2003, 3, 30, 0, 0, 0, 0),
+                             (1, 1, 1, 0, 0, 0, 0), (9999, 12, 31, 0, 0, 0, 0)])   # the ends of the datetime range
     o["tzinfos"] = r.choice(PC.TZINFOS_CHOICES)
-    h, mi = r.choice([(10, 30), (1, 30), (0, 0), (23, 59), (2, 15)])
+    h, mi = r.choice([(10, 30), (1, 30), (0, 0), (23, 59), (2, 15), (0, 59), (1, 0)])
     ztxt, name, off, posix = gen_zone_text(r)
     return o, "%02d:%02d%s" % (h, mi, ztxt), (h, mi, name, off, posix)
 
@@ -200,7 +216,12 @@ def local_matches(o, sem):
         eff = "UTC"
     y, mo, d = o["default"][:3]
     dtv = _dt.datetime(y, mo, d, h, mi, tzinfo=tz.tzlocal())
-    return dtv.tzname() == eff, dtv.replace(fold=1).tzname() == eff
+    try:
+        return dtv.tzname() == eff, dtv.replace(fold=1).tzname() == eff
+    except OverflowError:
+        # tz.tzlocal cannot serve this wall time (Local.tzlocal_raises); the table's answer does not
+        # depend on the bits then (F-C15-tzlocal-range)
+        return True, False
 
 
 # ---------------------------------------------------------------------------- stream 4: fuzzy
@@ -488,7 +509,16 @@ def main():
                          "(computable twin strict_clash = false, C15_guard_computable)",
                 "matcher": "m_second_ampm: strict parse succeeded and the fuzzy result differs AND the text has >= 2 AM/PM words "
                            "AND strict_clash (oracle entry 22) is TRUE on the extracted model for the same input and options",
-                "relation": "matcher = complement of the theorem's guard, evaluated on the extracted model for the very input"}},
+                "relation": "matcher = complement of the theorem's guard, evaluated on the extracted model for the very input"},
+            "F-C15-tzlocal-range": {
+                "theorem": "C15_tz_cascade_lz (the table with the failing tz.tzlocal: spec_zone_lz = spec_zone when "
+                           "tzlocal_raises is false, OverflowError on the local-zone row otherwise), C15_tz_cascade "
+                           "(runs in which tzname() answers)",
+                "guard": "tzlocal_raises lz naive = false (NOT: daylight-saving local zone AND standard time in force AND "
+                         "wall time - dst_saved outside datetime.min..datetime.max), relevant on the local-zone row only",
+                "matcher": "m_tzlocal_range: the implementation raises OverflowError where spec_zone answers a zone AND on "
+                           "the model the text resolves to the local zone AND the extracted tzlocal_raises is true",
+                "relation": "matcher = complement of the guard on the local-zone row, evaluated by the extracted predicate"}},
         "known_findings_hit": verdict.known_hits,
         "known_finding_examples": {k: v for k, v in verdict.known_examples.items()},
     }
